@@ -71,7 +71,7 @@ fn check(run: &Run, name: &str, d: &Diagram, with_kh: bool) -> Option<Lp> {
 fn main() {
     let run = Run::new("C04", "exploration");
     let th = run.thorough();
-    let fam = planar_family(if th { 4 } else { 3 });
+    let fam = planar_family(4);
     run.add("diagrams", fam.len() as u64);
     run.par_for(fam.len(), |i| {
         let (name, d) = &fam[i];
